@@ -896,6 +896,53 @@ impl Job for Overquery {
     }
 }
 
+/// C18: the field gate of verify(). The modulus claimed by an honest proof is replaced by each claim of MC_FieldGate.tla and the
+/// proof is verified under a minimum-security policy of 0 bits and of (true level + 1) bits; reports the verdict classes.
+pub struct FieldGate {
+    pub claims: Vec<Vec<u8>>,
+}
+impl Job for FieldGate {
+    fn run<B: SField, H: ElementHasher<BaseField = B> + Sync + Send>(&mut self, sc: &Scenario) -> Value {
+        let b = build::<B>(sc);
+        let proof = match prove_with::<B, H, DefaultRandomCoin<H>>(sc, b.cols.clone(), None) {
+            Ok(p) => p,
+            Err(e) => return json!({"id": sc.id, "prove": e}),
+        };
+        let level = proof.security_level::<H>(true);
+        let bytes = proof.to_bytes();
+        // header: four scalars, metadata (u16 length), then the modulus (u8 length)
+        let meta_len = u16::from_le_bytes([bytes[4], bytes[5]]) as usize;
+        let moff = 6 + meta_len;
+        let mlen = bytes[moff] as usize;
+        let judge = |mb: &[u8], min: u32| -> String {
+            let parsed = guarded(|| Proof::from_bytes(mb));
+            let p = match parsed {
+                Ok(Ok(p)) => p,
+                Ok(Err(_)) => return "parse-error".into(),
+                Err(p) => return format!("panic@parse/{}", panic_key(&p)),
+            };
+            let inputs = b.inputs.clone();
+            match guarded(|| verify::<ShapeAir<B>, H, DefaultRandomCoin<H>>(p, inputs, &AcceptableOptions::MinConjecturedSecurity(min))) {
+                Ok(Ok(())) => "accepted".into(),
+                Ok(Err(e)) => error_class(&format!("rejected: {e} <<{e:?}>>")),
+                Err(p) => format!("panic@verify/{}", panic_key(&p)),
+            }
+        };
+        let mut rows = vec![];
+        for c in &self.claims {
+            if c.len() > 255 {
+                continue;
+            }
+            let mut mb = bytes[..moff].to_vec();
+            mb.push(c.len() as u8);
+            mb.extend_from_slice(c);
+            mb.extend_from_slice(&bytes[moff + 1 + mlen..]);
+            rows.push(json!({"claimed": c, "at0": judge(&mb, 0), "at_level": judge(&mb, level), "above": judge(&mb, level + 1)}));
+        }
+        json!({"id": sc.id, "prove": "ok", "level": level, "true_modulus": bytes[moff + 1..moff + 1 + mlen].to_vec(), "rows": rows})
+    }
+}
+
 pub fn main(args: &[String]) -> i32 {
     use std::io::BufRead;
     let mode = args.get(0).map(|s| s.as_str()).unwrap_or("");
@@ -928,6 +975,11 @@ pub fn main(args: &[String]) -> i32 {
             "complete" => dispatch(&mut Complete, sc),
             "sound" => dispatch(&mut Sound, sc),
             "overquery" => dispatch(&mut Overquery, sc),
+            "fieldgate" => {
+                let cp = crate::common::arg_value(args, "--claims").expect("--claims");
+                let claims: Vec<Vec<u8>> = std::fs::read_to_string(cp).unwrap().lines().filter(|l| !l.trim().is_empty()).map(|l| serde_json::from_str(l).unwrap()).collect();
+                dispatch(&mut FieldGate { claims }, sc)
+            },
             m => {
                 eprintln!("harness: unknown stark mode {m}");
                 return 2;
